@@ -98,7 +98,16 @@ def check_lang_any(R, key, what, dfa, specs, where=None):
     (operand order of commutative steps, order of independent statements)"""
     best = None
     from .gea import normalised_dfa
+    pl = getattr(dfa, "path_lang", None)
     dfa = normalised_dfa(dfa)
+    if pl is not None:
+        # acyclic body: compare the set of path-precise strings with the (finite) set of strings of a variant
+        for sp in specs:
+            sd = normalised_dfa(spec_nfa(sp))
+            want = {tuple(x) for x in sd.enumerate_all(5000)}
+            if want == pl:
+                R.ok(key, "%s: path-precise event language equals the definition (%d paths, %d accepted variants)" % (what, len(pl), len(specs)), where)
+                return True
     for sp in specs:
         sd = normalised_dfa(spec_nfa(sp))
         diff = compare(dfa, sd)
